@@ -199,7 +199,9 @@ def run(chk):
             d = describe(prog, fb, 0)
             chk.ob("R5.auth_route", fb.path, "the fallback response is 401 Unauthorized", desc_contains(d, lambda y: y[0] == "variant" and y[2] == "Unauthorized"), f"{panics.short_desc(d)}")
         rets = core.return_blocks(c)
-        outs = [blk for blk, t in c.calls_to(r"app::forbidden$")] + users
+        # the 401: the `forbidden()` helper of the pinned tree, or (after a rename / inlining) a response built with StatusCode::Unauthorized
+        inline_401 = [blk for blk, t in c.calls_to(r"Response::(new|empty)$") if t["args"] and core.is_variant(describe(prog, c, t["args"][0]), "StatusCode", "Unauthorized")]
+        outs = [blk for blk, t in c.calls_to(r"app::forbidden$")] + inline_401 + users
         w = core.must_pass(c, [0], rets, through_nodes=outs, after_from=False)
         chk.ob("R5.auth_route", c.path, "every response is either the handler's (authenticated) or the 401", w is None, "", path=w)
     # ---- R6 same Argon2 construction
